@@ -191,6 +191,7 @@ class Interp:
         self.c = ctx.c
         self.loop_bound = loop_bound
         self.depth = 0
+        self.loop_bounds = {}  # function name -> unrolling bound overriding loop_bound
         self.natives = {}     # name -> python callable(interp, g, args) for stubbing free functions
         self.trace = None
 
@@ -271,7 +272,8 @@ class Interp:
         r = self.exec_block(item["body"], scope, frame, g)
         self.depth -= 1
         if frame.returned != F:
-            r = merge(frame.returned, frame.retval, r)
+            # a body that ends in a diverging expression (`loop`) has no fall-through value
+            r = frame.retval if (r is UNDEF or (r == UNIT and frame.retval != UNIT)) else merge(frame.returned, frame.retval, r)
         return r
 
     def call_closure(self, clo, g, args):
@@ -484,7 +486,10 @@ class Interp:
             if name in self.p.consts:
                 if name.endswith("_WEIGHT") and self.ctx.opaque_weights:
                     return OPQ
-                return self.eval(self.p.consts[name], Scope(), frame, g)
+                v = self.eval(self.p.consts[name], Scope(), frame, g)
+                if name.endswith("_WEIGHT") and self.ctx.bv_weights:
+                    return V.bv_const(v)
+                return v
             if name == "None":
                 return NONE
             if name in self.p.fns or name in self.p.links or name in self.natives:
@@ -591,6 +596,8 @@ class Interp:
         c = self.c
         if isinstance(a, BoolV) and isinstance(b, BoolV):
             return c.iff(a.l, b.l)
+        if a is UNDEF or b is UNDEF:
+            return F
         if (is_int(a) or a is OPQ) and (is_int(b) or b is OPQ):
             return int_eq(a, b)
         if isinstance(a, tuple) and isinstance(b, tuple) and len(a) == len(b):
@@ -609,6 +616,8 @@ class Interp:
     def e_Cast(self, e, scope, frame, g, hint):
         v = self.deref(self.eval(e["expr"], scope, frame, g))
         tn = ty_name(e["ty"])
+        if v is UNDEF:
+            return UNDEF
         if tn in INT_TYPES and (is_int(v) or v is OPQ):
             return v
         raise Unsupported("cast to %s of %r" % (tn, v))
@@ -616,6 +625,8 @@ class Interp:
     def e_Field(self, e, scope, frame, g, hint):
         base = self.deref(self.eval(e["base"], scope, frame, g))
         mem = e["member"]
+        if base is UNDEF:
+            return UNDEF
         if isinstance(base, StructV):
             if mem not in base.f:
                 raise Unsupported("no field %s in %s" % (mem, base.ty))
@@ -815,19 +826,21 @@ class Interp:
     def e_Loop(self, e, scope, frame, g, hint):
         c = self.c
         alive = g
-        for i in range(self.loop_bound):
+        bound = self.loop_bounds.get(frame.fname, self.loop_bound)
+        for i in range(bound):
             eg = c.and2(alive, -frame.dead(c))
             if eg == F:
                 return UNIT
             b = self.run_loop_body(e["body"], scope, frame, eg)
             alive = c.and2(eg, -b)
-        self.event(c.and2(alive, -frame.dead(c)), "bound", "loop bound %d exceeded in %s" % (self.loop_bound, frame.fname))
+        self.event(c.and2(alive, -frame.dead(c)), "bound", "loop bound %d exceeded in %s" % (bound, frame.fname))
         return UNIT
 
     def e_While(self, e, scope, frame, g, hint):
         c = self.c
         alive = g
-        for i in range(self.loop_bound + 1):
+        bound = self.loop_bounds.get(frame.fname, self.loop_bound)
+        for i in range(bound + 1):
             eg = c.and2(alive, -frame.dead(c))
             if eg == F:
                 return UNIT
@@ -841,11 +854,11 @@ class Interp:
             eg = c.and2(eg, cl)
             if eg == F:
                 return UNIT
-            if i == self.loop_bound:
+            if i == bound:
                 break
             b = self.run_loop_body(e["body"], sc, frame, eg)
             alive = c.and2(eg, -b)
-        self.event(eg, "bound", "while bound %d exceeded in %s" % (self.loop_bound, frame.fname))
+        self.event(eg, "bound", "while bound %d exceeded in %s" % (bound, frame.fname))
         return UNIT
 
     # ---- iterators
@@ -875,6 +888,21 @@ class Interp:
     def vec_items(self, v, g):
         if True:
             items = v.items()
+            if self.ctx.dedupe_rows and len(items) > 4 and all(isinstance(x, tuple) and all(is_int(y) for y in x) for _, x in items):
+                # WITNESS-SEARCH MODE ONLY (never in lemma mode): a list of rows is read as the set of its
+                # values.  Not an equivalence in general; candidates found this way are confirmed by native replay.
+                by = {}
+                for gi, x in items:
+                    if all(isinstance(y, int) for y in x):
+                        by[x] = self.c.or2(by.get(x, F), gi)
+                    else:
+                        import itertools as _it
+                        for t in _it.product(*[list(cases_of(y).items()) for y in x]):
+                            key = tuple(k for k, _ in t)
+                            gg = self.c.andl([gi] + [gk for _, gk in t])
+                            if gg != F:
+                                by[key] = self.c.or2(by.get(key, F), gg)
+                return [(by[k], k) for k in sorted(by)]
             k = self.ctx.compact_k
             if k is not None and len(items) > k and all(is_int(x) for _, x in items):
                 # a long guarded list of element ids of which at most k can be live (e.g. `uprooted`):
@@ -999,10 +1027,18 @@ class Interp:
 
     def method(self, recv, name, argexprs, scope, frame, g, hint, e):
         import builtins_rs
+        if recv is UNDEF:
+            for a in argexprs:
+                self.eval(a, scope, frame, g)
+            return UNDEF
         if isinstance(recv, LazyV):
             recv = self.force(recv)
         if isinstance(recv, RefV):
             inner = recv.place.get()
+            if inner is UNDEF:
+                for a in argexprs:
+                    self.eval(a, scope, frame, g)
+                return UNDEF
             if V.is_object(inner) or isinstance(inner, (OptV, tuple, EnumV, Mux)) or is_int(inner) or inner is OPQ or isinstance(inner, BoolV):
                 recv = inner
         if isinstance(recv, Mux):
